@@ -163,17 +163,21 @@ def _refs(args):
         with scratch.silence():
             cp = grouprun.setup_project("refs", fs.records, {"g1": texts1})
             last_records = fs.records
+            had_lines = []
             for r_i in range(nruns):
                 clock.t = 36000 + 5 * r_i
                 if r_i > 0:
-                    # the data changes between runs, so that "most recent run" is observable
-                    rows = [list(fs.names)] + [[lang.FileSpec.cell(rng, kd) for kd in fs.kinds] for _ in range(rng.randint(1, 5))]
+                    # the data changes between runs, so that "most recent run" is observable; the last of several runs sometimes
+                    # finds nothing to collect: the most recent run is still that one
+                    nrows = 0 if (r_i == nruns - 1 and not second and rng.random() < 0.3) else rng.randint(1, 5)
+                    rows = [list(fs.names)] + [[lang.FileSpec.cell(rng, kd) for kd in fs.kinds] for _ in range(nrows)]
                     # rows may stop short, but never before the columns the generated assignments rely on
                     rows = [rw if (j == 0 or rng.random() < 0.55) else rw[: rng.randint(fs.minlen, fs.ncols)] for j, rw in enumerate(rows)]
                     runner.write_csv("src/data.csv", rows)
                     cp.file_manager.add_named_file(name="data", path="src/data.csv")
                     last_records = rows
                 rec1, raised = _run_group(cp, "g1")
+                had_lines.append(bool(rec1 is not None and rec1.members and any(e["ret"] for e in rec1.members[0]["events"])))
                 if raised:
                     return {"violation": {"kind": "refs", "what": "the referenced group raised", "raised": raised, "text": text1, "records": last_records}}
             res1 = cp.results_manager.get_named_results("g1")[0]
@@ -205,6 +209,21 @@ def _refs(args):
                 comps2.append(f"@r{k} = $g1.headers.{h}")
                 refs.append({"what": "header", "name": "", "key": [], "hname": txt(h), "var": f"r{k}"})
                 k += 1
+            stale_probe = (not src_lines) and (not second) and any(had_lines[:-1])
+            if stale_probe:
+                # the most recent run of g1 collected nothing for member a, an earlier run did: a replay of $g1.results.:last.a has
+                # nothing to read (it may be refused); it must not read the older run's lines. Judged by ChainTrace: file = <<>>.
+                cp.paths_manager.add_named_paths(name="g3", paths=["~ id: c0 ~ $x[*][ yes() ]"])
+                clock.t += 3
+                rec3, raised3 = _run_group(cp, "g3", filename="$g1.results.:last.a")
+                if raised3 or rec3 is None or not rec3.members:
+                    return {"skip": True}
+                evj = rec3.members[0]["events"]
+                st3 = [{"prec": False, "shown": _lines_enc([e["line"] for e in evj]), "returned": _lines_enc([e["line"] for e in evj if e["ret"]]),
+                        "src": "orig", "nshown": len(evj)}]
+                return {"case": None, "traces": [], "info": {"referenced": texts1, "runs_of_referenced_group": nruns, "records": last_records,
+                                                              "replaying": ["~ id: c0 ~ $x[*][ yes() ]"], "note": "the most recent run collected no lines"},
+                        "extra_case": {"tid": idx + 500000, "kind": "chain", "file": [], "stages": st3}}
             if not comps2:
                 return {"skip": True}
             text2 = "~ id: b ~ $data[1][ " + " ".join(comps2) + " ]"
@@ -287,8 +306,9 @@ def main(tier):
         elif "violation" in o:
             rep.violation(o["violation"], finding=classify(o["violation"]))
         else:
-            cases.append(o["case"])
-            infos[o["case"]["tid"]] = o["info"]
+            if o["case"] is not None:
+                cases.append(o["case"])
+                infos[o["case"]["tid"]] = o["info"]
             if o.get("extra_case"):
                 cases.append(o["extra_case"])
                 infos[o["extra_case"]["tid"]] = dict(o["info"], replay_by_reference=True)
